@@ -75,6 +75,8 @@ def run(e: Engine, rep: Report):
     r35(e, rep)
     r36(e, rep, 'R3.6')
     r37(e, rep)
+    from . import storeback
+    storeback.run(e, rep, 'R3.8')
     rep.floor('R3.1', 2, 'attempt spawn sites')
     rep.floor('R3.7', 2, 'release sites of the in-flight mark')
 
